@@ -166,6 +166,14 @@ def run_case(case, g, graph, counters) -> Optional[Dict[str, Any]]:
         if sum(1 for _ in iter_nodes(closed)) > 400:
             return None
         before = prune(closed, rng, rng.randint(1, 4))
+        if rng.random() < 0.35:
+            # the parsers' representation of an epsilon expansion: a nonterminal with no
+            # child at all (the fuzzer's is one child labelled ""); such a node is
+            # expanded, not open
+            for _, n in iter_nodes(before):
+                if n.children is not None and len(n.children) == 1 and n.children[0].label == "" and is_nt(n.label):
+                    n.children = ()
+                    counters["parser_style_epsilon_nodes"] = counters.get("parser_style_epsilon_nodes", 0) + 1
         tree = to_isla(before)
         if kind == "expand_plain":
             mn = rng.choice([0, 0, 2, 5])
